@@ -38,6 +38,14 @@ ASSUMPTIONS = ["third-party crates enforce the limits they are configured with",
 WANT = "max_request_body_size"
 
 
+def http_reader(F):
+    """the body of transport::http that reads the request body (call_with_service itself or a helper it awaits)"""
+    c = [b for b in F.find(r"^jsonrpsee_server::transport::http::\w+::\{closure#0\}$") if b.calls_to(r"^jsonrpsee_core::http_helpers::read_body$")]
+    if len(c) != 1:
+        raise AnchorLost("the function of transport::http that calls read_body (found %d)" % len(c))
+    return c[0]
+
+
 def _report_leaves(R, rule, key, what, loc, leaves, want=WANT, require_field=True, scope=("jsonrpsee_server",)):
     good, bad, skipped = classify_config_leaves(leaves, want, scope)
     if bad:
@@ -120,7 +128,7 @@ def r2_http_limit(ctx):
             _report_leaves(R, "C07.R2", "%s:%s-arg" % (fkey(c.body), label), "limit passed to %s" % label, where(c), leaves)
     R.floor("C07.R2.callers", n, 3, "server-crate callers of read_body/call_with_service")
     # 413 mapping
-    cws = F.one(r"^jsonrpsee_server::transport::http::call_with_service::\{closure#0\}$")
+    cws = http_reader(F)
     tl = cws.calls_to(r"^jsonrpsee_server::transport::http::response::too_large$")
     R.check(bool(tl), "C07.R2", "call_with_service:too_large", "TooLarge is answered through response::too_large", "call_with_service never builds the 413 response", "%s:%d" % (cws.file, cws.lo))
     tlb = F.one(r"^jsonrpsee_server::transport::http::response::too_large$")
@@ -222,7 +230,7 @@ def r4_limit_before_read(ctx):
         R.check(ok, "C07.R4", "read_body:limited-wraps-body", "Limited::new wraps read_body's body parameter", "Limited::new does not wrap the request body", where(c))
     # nobody else consumes the body: every call taking (a copy of) the body param is pin plumbing or Limited::new
     # call_with_service: dispatch dominated by Ok(read_body)
-    cws = F.one(r"^jsonrpsee_server::transport::http::call_with_service::\{closure#0\}$")
+    cws = http_reader(F)
     R.fn(cws)
     rbc = cws.calls_to(r"^jsonrpsee_core::http_helpers::read_body$")
     hrc = cws.calls_to(r"^jsonrpsee_server::server::handle_rpc_call$")
